@@ -12,6 +12,18 @@ from specs import shared, gc
 from specs.shared import REPO_PY, UF, H
 
 META = models.opaque_type('Meta', pytype='dict')
+
+
+def _meta_getitem(interp, st, v, idx):
+    # os.stat numbers recorded for the file: whatever the file system said (NOT tied to the bytes that were streamed:
+    # a file can grow or shrink while it is read, procfs files report size 0)
+    if isinstance(idx, str):
+        yield st, SV(INT, UF('meta_' + idx, META, INT)(v.z))
+    else:
+        raise sym.Unsupported('metadata key')
+
+
+META.getitem = _meta_getitem
 SNAPFILE = Cls('SnapshotFile', {'path': STR, 'stream_start': INT, 'stream_end': INT,
                                 'metadata': Opt(META), 'digest': Opt(BYTES)})
 FILES_ELEM = Tup(INT, Ref(SNAPFILE))
@@ -505,9 +517,12 @@ def producer_setup(b):
     b.bind('_SnapshotChunk', models.ctor_model(CHUNK))
 
     def is_set(interp, st, args, kwargs):
-        yield st, sym.fresh(BOOL, 'aborted')
+        r = sym.fresh(BOOL, 'aborted')
+        st.emit('abort_checked', value=r)
+        yield st, r
 
     def put(interp, st, args, kwargs):
+        st.emit('queue_put_attempt', kwargs=dict(kwargs), nargs=len(args))
         full = st.copy()
         yield full, Raised(Exc('Full'))
         st.emit('queue_put', chunk=args[0])
@@ -546,6 +561,8 @@ def producer_post(prop):
     def post(res):
         b = res.builder
         puts = 0
+        if prop in ('C09', 'C03'):
+            producer_abort_obligations(res, prop)
         for p in res.body_paths('For#1') + res.paths:
             view = shared.PropsView(p.st, b.me.props)
             for e in p.events('queue_put'):
@@ -585,6 +602,32 @@ def producer_post(prop):
         for p in res.body_paths('For#1'):
             pass
     return post
+
+
+def producer_abort_obligations(res, prop):
+    """C09/C03: the producer can only wait for room in the queue in bounded steps, and looks at `abort` before EVERY such
+    step - when all workers have failed nobody drains the queue, and the command ends only because the producer notices"""
+    n = 0
+    for p in res.body_paths('While#1'):
+        evs = p.st.events
+        starts = [i for i, e in enumerate(evs) if e.kind == 'loop_body' and e.data.get('loop') == 'While#1']
+        it = evs[starts[-1]:] if starts else evs
+        kinds = [e.kind for e in it]
+        for i, e in enumerate(it):
+            if e.kind != 'queue_put_attempt':
+                continue
+            n += 1
+            res.oblige(p.pc_at(e), f'{prop}.producer.abort_observed_before_every_wait_for_the_queue',
+                       z3.BoolVal('abort_checked' in kinds[:i]))
+            res.oblige(p.pc_at(e), f'{prop}.producer.waits_for_the_queue_with_a_timeout',
+                       z3.BoolVal('timeout' in e.data['kwargs'] or e.data['nargs'] >= 3))
+        for e in it:
+            if e.kind == 'abort_checked':
+                # once abort is observed the producer stops: no further put in that iteration
+                after = [x for x in it[it.index(e) + 1:] if x.kind == 'queue_put_attempt']
+                if after:
+                    res.oblige(p.pc_at(after[0]), f'{prop}.producer.no_put_after_abort_was_observed', z3.Not(e.data['value'].z))
+    res.oblige([], f'{prop}.producer.put_loop_checked', z3.BoolVal(n >= 1))
 
 
 def producer_unit(prop):
